@@ -445,6 +445,9 @@ def gen_namecol(rng, n):
         if rng.random() < 0.3 and all(k >= 0 for k, _ in tab):
             # the table as text, through from_trace_codes_text
             case['text'] = ''.join(render_hex(rng, k) + rand_blank(rng) + v + rng.choice(TERMINATORS) for k, v in tab)
+        # what else is asked of the SAME parser object between requesting the (lazy) listing and reading it
+        case['later'] = rng.choice([None, None, 'traces', 'traces-unread', 'other-table', 'other-table-unread', 'bundled',
+                                    'lockstep'])
         cases.append(case)
     return cases
 
@@ -462,7 +465,28 @@ def impl_namecol(case):
     else:
         table = {k: v for k, v in case['table']}
     data = v2_file([(1, 10, 'proc'), (2, 11, 'other')], [bytes.fromhex(r) for r in case['recs']])
-    return 'ok ' + ';'.join(hs(l) for l in p.formatted_kevents(io.BytesIO(data), table))
+    listing = p.formatted_kevents(io.BytesIO(data), table)
+    later = case.get('later')
+    other = {k: 'OTHER_' + v for k, v in list(table.items())[::2]}
+    other[0x40c000c] = 'OTHER_read'
+    keep = []                                              # unread requests stay alive while the listing is read
+    try:
+        if later in ('traces', 'traces-unread'):
+            g = p.traces(io.BytesIO(data), {0x40c0050: 'BSC_getpid'})
+            keep.append(g if later.endswith('unread') else list(g))
+        elif later in ('other-table', 'other-table-unread'):
+            g = p.formatted_kevents(io.BytesIO(data), other)
+            keep.append(g if later.endswith('unread') else list(g))
+        elif later == 'bundled':
+            keep.append(list(p.formatted_kevents(io.BytesIO(data))))
+    except Exception:                                      # random words in a decoder: not this property's business
+        pass
+    if later == 'lockstep':
+        second = p.formatted_kevents(io.BytesIO(data), other)
+        lines = [a for a, _b in zip(listing, second)]
+    else:
+        lines = list(listing)
+    return 'ok ' + ';'.join(hs(l) for l in lines)
 
 
 def oracle_namecol(case, got):
@@ -692,8 +716,12 @@ def correspondence(rep, rng, tier):
 
     run_section(rep, 'namecol', gen_namecol(rng, 500 * k), line_namecol, impl_namecol, oracle_namecol,
                 nontrivial_fn=lambda c, got: len(c['recs']) > 0,
+                kind_fn=lambda c, got: 'later=%s' % c.get('later'),
                 rule='formatted_kevents(v2 file, table) with only the name column on; ids in / absent from the table '
-                     '(bundled ids re-named or absent), tables as dicts and as texts; oracle = "<name> (0x..)" / bare hex')
+                     '(bundled ids re-named or absent), tables as dicts and as texts; between requesting the lazy listing and '
+                     'reading it the same parser object is asked nothing / traces() / another listing with another table or '
+                     'the bundled one (read or left unread) / a second listing read in lock step; oracle = "<name> (0x..)" '
+                     '/ bare hex under the table the listing was requested with')
     names = all_handler_names()
     run_section(rep, 'gate', gen_streams(rng, 400 * k, names, NOT_HANDLED), lambda c: ' '.join(
         ['decode', table_arg(c['table'])] + c['recs']), impl_gate, oracle_traces,
